@@ -114,7 +114,7 @@ type genEnv struct {
 }
 
 var valueKinds = []string{"zero", "one", "0x7f", "0x80", "0xff", "max", "max-1", "signbit", "maxpos", "filesize", "filesize+1", "filesize-1",
-	"self", "other", "other+8", "orig+1", "orig-1", "orig*2", "orig<<8", "small", "rand"}
+	"self", "other", "other+8", "orig+1", "orig-1", "orig*2", "orig<<8", "small", "rand", "wrap", "wrap"}
 
 func mix64(x uint64) uint64 {
 	x += 0x9E3779B97F4A7C15
@@ -250,6 +250,11 @@ func genField(t *rapid.T, b *Base, near int) (Mut, int) {
 		v = uint64(st.Off)
 	case "small":
 		v = uint64(uni(t, "small", 0, 16))
+	case "wrap":
+		if w < 4 {
+			w = pickOf(t, "wrapw", []int{4, 8})
+		}
+		v = pickOf(t, "wrapv", wrapValues(w))
 	case "rand":
 		v = rapid.Uint64().Draw(t, "rand")
 	case "other", "other+8":
